@@ -375,8 +375,13 @@ class ProdParser:
         old classes may use lists etc
         """
         if isinstance(text, str):
-            # DEFAULT, to tokenize strip space
-            return tokenizer.tokenize(text.strip())
+            # DEFAULT, to tokenize strip space (CSS white space only, and
+            # not the blank an escape at the very end consists of)
+            stripped = text.strip(' \t\r\n\f')
+            escapes = len(stripped) - len(stripped.rstrip('\\'))
+            if escapes % 2:
+                stripped += text.lstrip(' \t\r\n\f')[len(stripped) :][:1]
+            return tokenizer.tokenize(stripped)
 
         elif isinstance(text, types.GeneratorType):
             # DEFAULT, already tokenized, should be generator
